@@ -233,6 +233,7 @@ class SpecMixin:
                         return self.spec_getattr(st, base, body[0].value.attr, node)
                     raise Unsupported(f'spec: property {name} is not a plain field accessor; use the field', node)
             val = self.hload(st, r_of(base.term), name)
+            st.assume(self.older(st, val))
             hint = self.declared_attr_type(base.cls, name) if base.cls is not None else None
             if hint is not None:
                 kinds, ci, optional = hint
